@@ -143,48 +143,32 @@ func (c *Check) prependHeaderShape(rule string) {
 		res := r.Results[0]
 		st := r.State
 		pos := p.InstrPos(r.Instr)
-		ok := res.Op == "append" && res.Args[1].Key == m.Key
-		var root *Expr
-		if ok {
-			var lo, hi *Expr
-			root, lo, hi = sliceParts(res.Args[0])
-			ok = root.Op == "arr" && root.C == 19 && lo == nil
-			if ok && hi != nil {
-				hv, isC := hi.IsConst()
-				ok = isC && hv == 19
-			}
-		}
-		c.require(ok, rule, "prependHeader", "header then body", pos, "result is append(<19-byte header>, body...)")
-		if !ok {
-			continue
-		}
-		lenOK, typOK := false, false
-		for k, v := range st.mem {
-			me := st.memE[k]
-			if me == nil {
-				continue
-			}
-			if me.Op == "bea" && me.S == "be16" && me.Args[0].Key == root.Key {
-				if off, isC := me.Args[1].IsConst(); isC && off == 16 {
-					// value: uint16(len(m)+19)
+		lay, lerr := st.layoutOf(res, 0)
+		okShape := lerr == ""
+		detail := lerr
+		if okShape {
+			okShape, detail = matchLayout(lay, []segPat{
+				{Kind: "gap", N: 16, What: "the 16 marker octets (filled by the marker loop)"},
+				{Kind: "be16", Pred: func(v *Expr) bool {
 					inner := v
-					if inner.Op == "conv" {
+					if inner != nil && inner.Op == "conv" {
 						inner = inner.Args[0]
 					}
 					l := st.linOf(inner).add(st.linOf(mkLen(m)), -1)
-					if cv, isC := l.isConst(); isC && cv == 19 {
-						lenOK = true
-					}
-				}
-			}
-			if me.Op == "ia" && me.Args[0].Key == root.Key {
-				if i, isC := me.Args[1].IsConst(); isC && i == 18 && v.Key == t.Key {
-					typOK = true
+					cv, isC := l.isConst()
+					return isC && cv == 19
+				}, What: "be16(len(body)+19)"},
+				{Kind: "byte", Pred: func(v *Expr) bool { return v != nil && v.Key == t.Key }, What: "byte(type argument)"},
+				{Kind: "bytes", Pred: func(v *Expr) bool { return v != nil && v.Key == m.Key }, What: "the body"},
+			})
+			if !okShape && len(lay) == 3 {
+				// an empty body has no bytes segment
+				if v, isC := st.rangeOf(mkLen(m)).IsConst(); isC && v == 0 {
+					okShape = true
 				}
 			}
 		}
-		c.require(lenOK, rule, "prependHeader", "length field", pos, "octets 16..17 hold big-endian uint16(len(body)+19)")
-		c.require(typOK, rule, "prependHeader", "type octet", pos, "octet 18 holds the type argument")
+		c.require(okShape, rule, "prependHeader", "header then body", pos, "the result is marker(16) ++ be16(len(body)+19) ++ type ++ body "+detail)
 	}
 	// marker: a step-1 loop over 0..15 storing 0xFF
 	okM := markerLoopCovers(fn, func(ia *ssa.IndexAddr) bool {
